@@ -37,7 +37,8 @@ ERR_CLASSES = [
     (r"timestamp cannot be 0", "htlc_timestamp_zero"),
     (r"invalid token max supply", "token_max_below_initial"),
     (r"rewardPerShare must be positive", "farm_rps_zero"),
-    (r"invalid request context state", "service_context_not_paused"),
+    # F17: contexts must be PAUSED with a COMPLETED batch
+    (r"invalid request context (batch )?state", "service_context_not_paused"),
     (r"asset not found", "htlc_asset_not_found"),
 ]
 
